@@ -43,20 +43,34 @@ LpSpell  == [user |-> {"lower", "upper", "mixed"},
              fw   |-> {"lower", "upper"}]
 LabSpell == [ex |-> {"lower", "upper", "mixed"},
              e1 |-> {"lower", "upper", "nfd", "uppernfd", "alabel", "alabelup", "alabelmix"},
-             ss |-> {"lower", "upper", "alabel", "alabelup"},
+             \* ss: sharp s; uppercs spells it with the capital sharp s U+1E9E
+             ss |-> {"lower", "upper", "uppercs", "alabel", "alabelup"},
              fs |-> {"lower", "alabel", "alabelup"},
-             jc |-> {"lower", "nfd", "upperd", "alabel", "alabelup"}]
-TldSpell == [com |-> {"lower", "upper"}]
+             jc |-> {"lower", "nfd", "upperd", "alabel", "alabelup"},
+             \* context-sensitive case mappings: sigma U+03C3 at the end of a word (before the
+             \* dot, before a hyphen, before a digit) must not become final sigma when the
+             \* upper-case variant is folded; dotless i U+0131 must stay dotless
+             s0 |-> {"lower", "upper", "alabel", "alabelup"},
+             sh |-> {"lower", "upper", "alabel", "alabelup"},
+             sd |-> {"lower", "upper", "alabel", "alabelup"},
+             di |-> {"lower", "alabel", "alabelup"}]
+\* gs: a last label ending in sigma U+03C3 (end of the domain)
+TldSpell == [com |-> {"lower", "upper"}, gs |-> {"lower", "upper", "alabel"}]
 AsciiBase == {"user", "ex", "com"}
 
 Lps  == UNION {{[b |-> b, s |-> s] : s \in LpSpell[b]} : b \in DOMAIN LpSpell}
 Labs == UNION {{[b |-> b, s |-> s] : s \in LabSpell[b]} : b \in DOMAIN LabSpell}
 Tlds == UNION {{[b |-> b, s |-> s] : s \in TldSpell[b]} : b \in DOMAIN TldSpell}
-Addrs == {[lp |-> l, dom |-> <<d, t>>] : l \in Lps, d \in Labs, t \in Tlds}
+\* every local part x label under com; the non-ASCII last label with the ASCII local part
+InSpace(l, t) == t.b = "com" \/ l.b = "user"
+Addrs == {a \in {[lp |-> l, dom |-> <<d, t>>] : l \in Lps, d \in Labs, t \in Tlds} : InSpace(a.lp, a.dom[2])}
 
 Id(a) == [lp |-> a.lp.b, dom |-> [i \in DOMAIN a.dom |-> a.dom[i].b]]
 DomId(a) == [i \in DOMAIN a.dom |-> a.dom[i].b]
 Class(a) == {x \in Addrs : Id(x) = Id(a)}
+\* the address as it is written canonically, one per identity
+Canon(a) == [lp |-> [b |-> a.lp.b, s |-> "lower"], dom |-> [i \in DOMAIN a.dom |-> [b |-> a.dom[i].b, s |-> "lower"]]]
+Reps == {a \in Addrs : a = Canon(a)}
 
 \* dns.ForLookup / the domain half of address.ForLookup and CleanDomain on one label:
 \* A-label -> U-label, NFC, lower case
@@ -92,6 +106,8 @@ Model1(D, a) ==
   [key |-> Key(D, a), kerr |-> FALSE, key2 |-> Key(D, Key(D, a)),
    clean |-> Clean(D, a), cerr |-> FALSE, clean2 |-> Clean(D, Clean(D, a)),
    dkey |-> NormDom(D, a.dom), dkey2 |-> NormDom(D, NormDom(D, a.dom)),
+   kcanon |-> Key(D, Canon(a)),          \* ForLookup of the canonical spelling of the same address
+   ckey |-> Key(D, Clean(D, a)),         \* ForLookup(CleanDomain(a))
    eqself |-> TRUE]
 Model2(D, a, b) ==
   [eqab |-> EqualM(D, a, b), eqba |-> EqualM(D, b, a), ka |-> Key(D, a), kb |-> Key(D, b),
@@ -102,7 +118,8 @@ Model3(D, a, b, c) ==
   [eqab |-> EqualM(D, a, b), eqbc |-> EqualM(D, b, c), eqac |-> EqualM(D, a, c)]
 
 Proj1(o) == [key |-> o.key, kerr |-> o.kerr, key2 |-> o.key2, clean |-> o.clean, cerr |-> o.cerr,
-             clean2 |-> o.clean2, dkey |-> o.dkey, dkey2 |-> o.dkey2, eqself |-> o.eqself]
+             clean2 |-> o.clean2, dkey |-> o.dkey, dkey2 |-> o.dkey2, kcanon |-> o.kcanon, ckey |-> o.ckey,
+             eqself |-> o.eqself]
 
 (* the laws *)
 Viol1(a, o) ==
@@ -110,6 +127,10 @@ Viol1(a, o) ==
   \cup (IF ~o.kerr /\ o.key2 = o.key THEN {} ELSE {"IdemKey"})
   \cup (IF ~o.cerr /\ o.clean2 = o.clean THEN {} ELSE {"IdemClean"})
   \cup (IF o.dkey2 = o.dkey THEN {} ELSE {"IdemDns"})
+  \* every variant gets the key of the canonical spelling; cleaning the domain (what the
+  \* endpoint does before tables see the address) does not change the key
+  \cup (IF o.key = o.kcanon THEN {} ELSE {"OneKey"})
+  \cup (IF o.ckey = o.key THEN {} ELSE {"CleanKeepsKey"})
   \cup (IF "split" \in DOMAIN o => o.split.ok /\ o.split.joined = a THEN {} ELSE {"SplitJoin"})
   \cup (IF "conv" \in DOMAIN o /\ ConvForm(a)
         THEN IF /\ ~o.conv.aerr /\ ~o.conv.uerr
@@ -140,7 +161,9 @@ MaxCP == [l |-> 97, u |-> 65, d |-> 49, s |-> 33, p |-> 40, q |-> 34, b |-> 92, 
           i130 |-> 304, ss |-> 223, fs |-> 962, fw |-> 65313,
           ace |-> 120, ACE |-> 88, pm |-> 116, PM |-> 84,
           \* only in the comparison layer: letters whose lower-casing and case folding differ
-          sg |-> 963, SG |-> 931, li |-> 105, es |-> 115, ls |-> 383, kk |-> 107, KS |-> 8490]
+          sg |-> 963, SG |-> 931, li |-> 105, es |-> 115, ls |-> 383, kk |-> 107, KS |-> 8490,
+          \* only in the domain layer: degenerate A-label shapes ("xn--", "XN--", "Xn--", "xn---") and "-"
+          xe |-> 120, XE |-> 88, Xe |-> 110, xh |-> 120, hy |-> 45]
 \* the alphabet of the one-string laws
 Sym == {"l", "u", "d", "s", "p", "q", "b", "at", "dot", "sp", "del", "c80", "c81", "cm", "i130", "ss",
         "fs", "fw", "ace", "ACE", "pm", "PM"}
@@ -249,30 +272,46 @@ ViolP3(o) == IF (o.eq12 /\ o.eq23 => o.eq13) /\ ("deq12" \in DOMAIN o => (o.deq1
              THEN {} ELSE {"TransitiveS"}
 
 ----------------------------------------------------------------------------
+(* layer 2c: crash-freedom on degenerate domains ("domain")                   *)
+(* Domains built from degenerate A-label shapes (the bare ACE prefix in any   *)
+(* letter case decodes to the empty string, "xn---", A-labels next to dots,   *)
+(* hyphens, non-ASCII) are given to every function as a bare domain, behind   *)
+(* a plain and behind a quoted local part.  The only law is crash-freedom.    *)
+
+DSym == {"l", "u", "d", "dot", "hy", "xe", "XE", "Xe", "xh", "ace", "ACE", "c80", "cm", "fs"}
+ViolD(o) == IF o.panics = <<>> THEN {} ELSE {"NoPanic"}
+
+----------------------------------------------------------------------------
 (* model checking *)
 
 VARIABLE st     \* algebra: an address; string: a symbol sequence
 
 \* algebra: local part and tld are chosen first (initial states), the label in one step,
 \* so that the workers share the addresses; string: one symbol is appended per step
-Init == IF Layer = "algebra" THEN st \in {[lp |-> l, dom |-> <<t>>] : l \in Lps, t \in Tlds} ELSE st = <<>>
+Init == IF Layer = "algebra" THEN st \in {x \in {[lp |-> l, dom |-> <<t>>] : l \in Lps, t \in Tlds} : InSpace(x.lp, x.dom[1])}
+        ELSE st = <<>>
 Next == \/ /\ Layer = "string"
            /\ Len(st) < StrLen
            /\ \E c \in Sym : st' = Append(st, c)
         \/ /\ Layer = "string2"
            /\ Len(st) < 2
            /\ \E c \in Sym2 : st' = Append(st, c)
+        \/ /\ Layer = "domain"
+           /\ Len(st) < StrLen
+           /\ \E c \in DSym : st' = Append(st, c)
         \/ /\ Layer = "algebra"
            /\ Len(st.dom) = 1
            /\ \E d \in Labs : st' = [lp |-> st.lp, dom |-> <<d, st.dom[1]>>]
 Spec == Init /\ [][Next]_st
-Complete == Layer \in {"string", "string2"} \/ Len(st.dom) = 2
+Complete == Layer \in {"string", "string2", "domain"} \/ Len(st.dom) = 2
 
 AlgebraLaws ==
   Layer = "algebra" /\ Complete =>
     /\ Viol1(st, Model1(Devs, st)) = {}
-    /\ \A b \in Addrs : Viol2(st, b, Model2(Devs, st, b)) = {}
-    /\ \A b, c \in Class(st) : Viol3(Model3(Devs, st, b, c)) = {}
+    \* pairs: every variant of the same address and the canonical spelling of every other one;
+    \* triples: the variants that share the spelling of the local part
+    /\ \A b \in Class(st) \cup Reps : Viol2(st, b, Model2(Devs, st, b)) = {}
+    /\ \A b, c \in {x \in Class(st) : x.lp = st.lp} : Viol3(Model3(Devs, st, b, c)) = {}
     /\ ConvForm(st) => /\ ToASCIIM(ToUnicodeM(st)) = ToASCIIM(st)
                        /\ ToUnicodeM(ToASCIIM(st)) = ToUnicodeM(st)
                        /\ (AForm(st) => ToASCIIM(st) = st)
@@ -285,6 +324,8 @@ CompareLaws ==
   Layer = "string2" =>
     /\ \A t \in Strs2 : ViolP2(ModelP2(st, t)) = {}
     /\ \A t, u \in {x \in Strs2 : Alike(st, x)} : ViolP3(ModelP3(st, t, u)) = {}
+\* degenerate domains: the documented functions return values or errors, they never crash
+DomainLaws == Layer = "domain" => ViolD([panics |-> <<>>]) = {}
 EmitOrbit == Gen /\ Layer = "string2" /\ st = <<>> => PrintT(<<"ORBIT", ToJson(Orbit)>>)
 
 Emit == Gen /\ Complete => PrintT(<<"ROW", ToJson(st)>>)
